@@ -16,8 +16,13 @@ def _vacuity(tot):
         raise par.HarnessError("C06 vacuity guard: %r" % tot["outcomes"])
 
 
+KF = {"KF-C06-1": "with pruning on, a game whose initial state has a positive reachability value not larger than the convergence tolerance can be "
+                  "declared to have no solution: the iteration stops (largest change <= 1e-6) before the value reaches state 0, which still reports 0 "
+                  "(e.g. [[(1,1)], [(4e-07,3),(0.9999996,2)], [(1,2)], [(1,3)]], final [3])"}
+
+
 def run(ctx):
-    return sweep.run_plan(ctx, PROP, stopping_plan(PROP, ctx, with_t3=True), RULE, ASSUME, vacuity=_vacuity)
+    return sweep.run_plan(ctx, PROP, stopping_plan(PROP, ctx, with_t3=True), RULE, ASSUME, kf_what=KF, vacuity=_vacuity)
 
 
 def replay(case):
